@@ -46,7 +46,8 @@ ADDSETS = {
     "counter": ["collections.Counter", "pickle.loads"],
 }
 # what else is armed on top of the ML environment while the probe runs
-OVERLAYS = ["none", "global-check", "context"]
+OVERLAYS = ["none", "global-check", "context", "reactivated"]      # reactivated: another activation (with
+#                                                                     other additions) precedes, not removed
 
 FINALS = {
     "stdlib-not-listed": ("decimal", "Decimal"),      # rated LIKELY_SAFE by the static check, not allow-listed
@@ -164,6 +165,9 @@ def run_case(ctx, mods, base, cache, chain, kind, final, entry, aname, overlay="
         return
     w = {"chain": list(chain), "inner": kind, "final": final, "entry": entry, "additions_name": aname, "overlay": overlay}
     del vp_sink.LOG[:]
+    if overlay == "reactivated":
+        hook.activate_safe_ml_environment(also_allow=["vp_sink.hit", "collections.Counter", "pickle.loads",
+                                                      "_pickle.loads", "torch.load", "decimal.Decimal"])
     hook.activate_safe_ml_environment(also_allow=list(adds) if adds else None)
     cm = None
     try:
